@@ -10,7 +10,7 @@ DELTAS = [0, 0.0625, 0.125, 0.25, 0.5, 0.75, 1, 1.0, 1.5, 2, 3]
 @st.composite
 def timing_program(draw, max_routines=6, sends=False, nondyadic=False,
                    apps=True, tempo_ops=False, etempo=False, busy=False,
-                   hand=False):
+                   hand=False, beats_ops=False):
     """Nested routines with finite yield sequences on SystemClock, AppClock
     and TempoClocks of fixed tempo (C05, C07)."""
     nclocks = draw(st.integers(0, 3))
@@ -108,6 +108,11 @@ def timing_program(draw, max_routines=6, sends=False, nondyadic=False,
                 body.append(['etempo' if etempo and draw(st.booleans())
                              else 'tempo', draw(st.integers(0, nclocks - 1)),
                              draw(st.sampled_from([0.5, 1, 2, 4]))])
+            if beats_ops and nclocks and draw(st.integers(0, 5)) == 0:
+                # a routine moves the beats of a clock (the new beat/second
+                # pair is anchored at the routine's logical time)
+                body.append(['beats_add', draw(st.integers(0, nclocks - 1)),
+                             draw(st.sampled_from([1, 2, 0.5, -0.5]))])
             if s < steps - 1 or draw(st.booleans()):
                 body.append(['wait', draw(st.sampled_from(DELTAS))])
         for k in kids:
